@@ -206,10 +206,11 @@ func (t *tv) plains(acc *[]int) {
 }
 
 type treeHarness struct {
-	enc *encHarness
-	ctr int
-	p   *prng
-	bad string
+	enc     *encHarness
+	ctr     int
+	p       *prng
+	bad     string
+	mapLeak string // an unclassified (untagged map) value that did not come out redacted
 }
 
 func (h *treeHarness) leafOut(v string, m int) string {
@@ -315,7 +316,21 @@ func (h *treeHarness) show(t *tv, v reflect.Value) []string {
 				return fail("map key lost")
 			}
 			r = append(r, fmt.Sprint(it.key))
-			r = append(r, h.show(it.v, e)...)
+			sub := h.show(it.v, e)
+			// unclassified data is always redacted, whatever the overrides say
+			switch it.v.kind {
+			case "s", "b":
+				if sub[0] != "R" && h.mapLeak == "" {
+					h.mapLeak = fmt.Sprintf("the value under key k%d of an untagged map came out as %s", it.key, sub[0])
+				}
+			case "S", "B":
+				for _, x := range sub[2:] {
+					if x != "R" && x != "nil" && h.mapLeak == "" {
+						h.mapLeak = fmt.Sprintf("an element of the slice under key k%d of an untagged map came out as %s", it.key, x)
+					}
+				}
+			}
+			r = append(r, sub...)
 		}
 		return r
 	}
@@ -541,7 +556,7 @@ func enctreeMain(args []string) {
 	for c := 0; c < *n; c++ {
 		st.Cases++
 		st.Ops++
-		h.bad = ""
+		h.bad, h.mapLeak = "", ""
 		// payload: pointer to struct mostly; also struct by value, slices, maps, pointers to those, strings
 		var t *tv
 		switch p.intn(10) {
@@ -611,6 +626,9 @@ func enctreeMain(args []string) {
 			st.hit("tree:filtered")
 			if h.bad != "" {
 				oracle("C10 the forwarded payload does not have the input's shape (%s) || case: %s", h.bad, line)
+			}
+			if h.mapLeak != "" {
+				oracle("C09 unclassified data must be redacted: %s || case: %s", h.mapLeak, line)
 			}
 			if reflect.TypeOf(got.Payload) != reflect.TypeOf(payload) {
 				oracle("C10 dynamic type changed || case: %s", line)
